@@ -3227,12 +3227,16 @@ fn convert_group_entry<'a>(
         is_cut = true;
       }
       Rule::member_key => {
+        // The member key gets the extent of the key itself, not of the whole
+        // entry: it is a sibling of the entry's occurrence and type
+        #[cfg(feature = "ast-span")]
+        let member_key_span = pest_span_to_ast_span(&inner.as_span(), input);
         member_key = Some(convert_member_key_simple(
           inner,
           input,
           is_cut,
           #[cfg(feature = "ast-span")]
-          span,
+          member_key_span,
         )?);
       }
       Rule::type_expr => {
